@@ -82,6 +82,9 @@ def parseExpression(expression):
     Handle Function Calls
     '''
     if expression["type"] == 'call':
+        if expression["name"].lower() not in builtins:
+            # an equation that uses a function this transpiler does not know must not silently evaluate to 0
+            raise NotImplementedError("The function {} has not been implemented".format(expression["name"].lower()))
         try:
             macro = builtins[expression["name"].lower()]
             return macro(expression["args"])
